@@ -1,4 +1,6 @@
 import CwPlus.Lemmas.Cw3Flex
+import CwPlus.Lemmas.Cw3FlexInv
+import CwPlus.Lemmas.Cw3FlexAt
 import CwPlus.Props.C09
 /-!
 # C06 — cw3: ballots are snapshot weights (cw3-flex-multisig part)
@@ -327,6 +329,302 @@ example :
     ((w.flex.core.proposals.get? 1).map fun p => (p.startHeight, p.totalWeight)) = some (11, 7) ∧
     Cw4Group.queryTotalWeight w.group (some 11) = 7 ∧
     ((ballotsOf w.flex.core 1).get? "a").map (·.weight) = some 3 ∧ memberAt w.group "a" 11 = some 3 := by
+  decide
+
+/-! ## history level: proposer and total are snapshot values, ballots never outweigh the total — under the guard
+
+The guard `CleanStart w.log id p.startHeight` (Lemmas/Cw3FlexInv.lean) reads the ghost log: no group write at the
+proposal's start height precedes the `Propose` that created it.  It is exactly the complement of the known
+same-block finding (D3, `C06_flex_counterexample`).  Everything below is an invariant of whole histories with
+non-decreasing block heights, nested dispatches (group updates sent by proposals, hooks, self-calls) included. -/
+
+/-- At height `h` the group's snapshot is a membership map `M` without repeated keys whose weights sum to `total`
+(a `u64`): `Member { a, at_height: h }` answers `M.get? a` for every address, `TotalWeight { at_height: h }` answers
+`total`. -/
+def Snapshotted (g : Cw4Group.State) (h total : Nat) : Prop :=
+  ∃ M : AMap Addr Nat, AMap.NodupKeys M ∧ AMap.sum M = total ∧ total ≤ U64_MAX ∧
+    (∀ a, memberAt g a h = M.get? a) ∧ g.total.atHeight h = some total
+
+/-- `SnapInv` plus: the strengthened state invariant `Inv'`; the group satisfies the cw4-group invariant of C09
+(total = Σ weights, one entry per member, `u64`); if no group write happened in block `H` yet, the group's changelogs
+end before `H`; and for every proposal whose creation is not preceded by a group write in its own block
+(`CleanStart`): its `total_weight` and the membership at its start height form a `Snapshotted` snapshot, and the
+proposer's ballot carries the proposer's snapshot weight. -/
+structure TotalInv (w : World) (H : Nat) : Prop where
+  snap : SnapInv w H
+  inv' : Inv' w.flex
+  grp : CwPlus.Props.C09.Inv w.group
+  fresh : Event.groupWrite H ∉ w.log → ∃ B, B < H ∧ w.group.members.LogLe B ∧ w.group.total.LogLe B
+  total : ∀ id p, w.flex.core.proposals.get? id = some p → CleanStart w.log id p.startHeight →
+    Snapshotted w.group p.startHeight p.totalWeight
+  propBallot : ∀ id p b, w.flex.core.proposals.get? id = some p → CleanStart w.log id p.startHeight →
+    (ballotsOf w.flex.core id).get? p.proposer = some b → memberAt w.group p.proposer p.startHeight = some b.weight
+
+theorem TotalInv.mono {w : World} {H H' : Nat} (h : TotalInv w H) (hh : H ≤ H') : TotalInv w H' := by
+  refine ⟨h.snap.mono hh, h.inv', h.grp, ?_, h.total, h.propBallot⟩
+  intro hn
+  by_cases e : H = H'
+  · subst e; exact h.fresh hn
+  · exact ⟨H, by omega, h.snap.membersLe, h.snap.totalLe⟩
+
+/-- A flex handler call in block `H` keeps `TotalInv · H`. -/
+theorem total_flex {w : World} {blk : Block} {snd : Addr} {funds : List Coin} {em : ExecMsg} {s' : State} {out : List Out}
+    (hq : TotalInv w blk.height) (he : Cw3Flex.execute w.flex w.group w.self blk snd funds em = .ok (s', out)) :
+    TotalInv { w with flex := s', log := w.log ++ [eventOf w.flex snd em] } blk.height := by
+  have hnw : ∀ h, Event.groupWrite h ∉ w.log ++ [eventOf w.flex snd em] → Event.groupWrite h ∉ w.log :=
+    fun h hn hm => hn (List.mem_append_left _ hm)
+  refine ⟨snap_flex hq.snap he, execute_inv' hq.inv' he, hq.grp, fun hn => hq.fresh (hnw _ hn), ?_, ?_⟩
+  all_goals
+    obtain ⟨_, hc⟩ := execute_cases he
+    rcases hc with ⟨t, d, msgs, latest, w0, total, id0, hem, hw0, htot, _, _, hp⟩ | ⟨id0, v, hem, _, hv⟩ |
+      ⟨id0, p0, msgs, hem, _, hex, _⟩ | ⟨id0, p0, hem, _, hcl, _⟩ | ⟨hem, _, rfl, _⟩
+  -- total
+  · obtain ⟨expires, st, _, _, hid, _, hc'⟩ := propose_spec hp
+    intro id p hpp hcl
+    rw [cleanStart_snoc] at hcl
+    simp only [hc', AMap.get?_set] at hpp
+    by_cases e : id0 = id
+    · simp only [e, if_true, Option.some.injEq] at hpp; subst hpp
+      simp only
+      have hnot := hcl.1 ((eventOf_isProposed _ _ _ _).mpr ⟨⟨t, d, msgs, latest, hem⟩, by omega⟩)
+      obtain ⟨B, hB, hm, ht⟩ := hq.fresh hnot
+      obtain ⟨hsum, hnd, hu⟩ := hq.grp
+      have htotal : total = AMap.sum w.group.members.cur := by
+        rw [hsum] at htot; exact (Option.some.inj htot).symm
+      refine ⟨w.group.members.cur, hnd, htotal.symm, by omega, ?_, ?_⟩
+      · intro a
+        show w.group.members.atHeight a blk.height = _
+        rw [SnapMap.atHeight_of_logLe hm hB a]; rfl
+      · rw [Cell.atHeight_of_logLe ht hB]; exact htot
+    · simp only [e, if_false] at hpp; exact hq.total id p hpp hcl.2
+  · obtain ⟨p1, w1, votes, st, hp1, _, _, _, _, _, _, _, hc'⟩ := vote_spec hv
+    intro id p hpp hcl
+    rw [cleanStart_snoc] at hcl
+    simp only [hc', AMap.get?_set] at hpp
+    by_cases e : id0 = id
+    · simp only [e, if_true, Option.some.injEq] at hpp; subst hpp; subst e; exact hq.total id0 p1 hp1 hcl.2
+    · simp only [e, if_false] at hpp; exact hq.total id p hpp hcl.2
+  · obtain ⟨p1, hp1, _, _, _, hc'⟩ := execute_spec hex
+    intro id p hpp hcl
+    rw [cleanStart_snoc] at hcl
+    simp only [hc', AMap.get?_set] at hpp
+    by_cases e : id0 = id
+    · simp only [e, if_true, Option.some.injEq] at hpp; subst hpp; subst e; exact hq.total id0 p1 hp1 hcl.2
+    · simp only [e, if_false] at hpp; exact hq.total id p hpp hcl.2
+  · obtain ⟨p1, _, hp1, _, _, _, _, _, _, hc'⟩ := close_spec hcl
+    intro id p hpp hcl
+    rw [cleanStart_snoc] at hcl
+    simp only [hc', AMap.get?_set] at hpp
+    by_cases e : id0 = id
+    · simp only [e, if_true, Option.some.injEq] at hpp; subst hpp; subst e; exact hq.total id0 p1 hp1 hcl.2
+    · simp only [e, if_false] at hpp; exact hq.total id p hpp hcl.2
+  · intro id p hpp hcl
+    rw [cleanStart_snoc] at hcl
+    exact hq.total id p hpp hcl.2
+  -- propBallot
+  · obtain ⟨expires, st, _, _, hid, _, hc'⟩ := propose_spec hp
+    have hnone : w.flex.core.proposals.get? id0 = none := hq.snap.inv.wf.fresh (by omega)
+    have hb0 : ballotsOf w.flex.core id0 = [] := hq.snap.inv.wf.noBallots id0 hnone
+    intro id p b hpp hcl hb
+    rw [cleanStart_snoc] at hcl
+    simp only [hc', AMap.get?_set] at hpp
+    simp only [hc', ballotsOf_set] at hb
+    by_cases e : id0 = id
+    · simp only [e, if_true, Option.some.injEq] at hpp hb
+      rw [← e, hb0] at hb
+      subst hpp
+      simp [AMap.set, AMap.get?] at hb
+      subst hb
+      have hnot := hcl.1 ((eventOf_isProposed _ _ _ _).mpr ⟨⟨t, d, msgs, latest, hem⟩, by omega⟩)
+      obtain ⟨B, hB, hm, _⟩ := hq.fresh hnot
+      show w.group.members.atHeight snd blk.height = some w0
+      rw [SnapMap.atHeight_of_logLe hm hB snd]; exact hw0
+    · simp only [e, if_false] at hpp hb; exact hq.propBallot id p b hpp hcl.2 hb
+  · obtain ⟨p1, w1, votes, st, hp1, _, _, hw, hw1, hnb, _, _, hc'⟩ := vote_spec hv
+    intro id p b hpp hcl hb
+    rw [cleanStart_snoc] at hcl
+    simp only [hc', AMap.get?_set] at hpp
+    simp only [hc', ballotsOf_set] at hb
+    by_cases e : id0 = id
+    · simp only [e, if_true, Option.some.injEq] at hpp hb
+      subst hpp; subst e
+      simp only at hb ⊢
+      rw [AMap.get?_set] at hb
+      by_cases ea : snd = p1.proposer
+      · simp only [ea, if_true, Option.some.injEq] at hb; subst hb; rw [← ea]; exact hw
+      · simp only [ea, if_false] at hb; exact hq.propBallot id0 p1 b hp1 hcl.2 hb
+    · simp only [e, if_false] at hpp hb; exact hq.propBallot id p b hpp hcl.2 hb
+  · obtain ⟨p1, hp1, _, _, _, hc'⟩ := execute_spec hex
+    intro id p b hpp hcl hb
+    rw [cleanStart_snoc] at hcl
+    simp only [hc', AMap.get?_set] at hpp
+    simp only [hc', ballotsOf_frame] at hb
+    by_cases e : id0 = id
+    · simp only [e, if_true, Option.some.injEq] at hpp; subst hpp; subst e; exact hq.propBallot id0 p1 b hp1 hcl.2 hb
+    · simp only [e, if_false] at hpp; exact hq.propBallot id p b hpp hcl.2 hb
+  · obtain ⟨p1, _, hp1, _, _, _, _, _, _, hc'⟩ := close_spec hcl
+    intro id p b hpp hcl hb
+    rw [cleanStart_snoc] at hcl
+    simp only [hc', AMap.get?_set] at hpp
+    simp only [hc', ballotsOf_frame] at hb
+    by_cases e : id0 = id
+    · simp only [e, if_true, Option.some.injEq] at hpp; subst hpp; subst e; exact hq.propBallot id0 p1 b hp1 hcl.2 hb
+    · simp only [e, if_false] at hpp; exact hq.propBallot id p b hpp hcl.2 hb
+  · intro id p b hpp hcl hb
+    rw [cleanStart_snoc] at hcl
+    exact hq.propBallot id p b hpp hcl.2 hb
+
+/-- A group call in block `H` keeps `TotalInv · H`: its writes are invisible at every height `≤ H`, and the group keeps
+its own invariant (C09). -/
+theorem total_group {w : World} {blk : Block} {snd : Addr} {m : Cw4Group.Msg} {g' : Cw4Group.State} {outs : List Cw4Group.Out}
+    (hq : TotalInv w blk.height) (hg : Cw4Group.execute w.group blk.height snd m = .ok (g', outs)) :
+    TotalInv { w with group := g', log := w.log ++ [.groupWrite blk.height] } blk.height := by
+  have hs := CwPlus.Props.C09.execute_sameBlock hg
+  have hcs : ∀ id h, CleanStart (w.log ++ [Event.groupWrite blk.height]) id h → CleanStart w.log id h :=
+    fun id h hc => ((cleanStart_snoc _ _ _ _).mp hc).2
+  refine ⟨snap_group hq.snap hg, hq.inv', CwPlus.Props.C09.execute_inv hq.grp hg, ?_, ?_, ?_⟩
+  · intro hn; exact absurd (List.mem_append_right _ (List.mem_singleton.mpr rfl)) hn
+  · intro id p hp hcl
+    have hle := hq.snap.startLe id p hp
+    obtain ⟨M, hnd, hsum, hu, hmem, htot⟩ := hq.total id p hp (hcs _ _ hcl)
+    refine ⟨M, hnd, hsum, hu, ?_, ?_⟩
+    · intro a
+      show g'.members.atHeight a p.startHeight = _
+      rw [hs.1.atHeight_le hq.snap.membersLe a hle]; exact hmem a
+    · show g'.total.atHeight p.startHeight = _
+      rw [hs.2.atHeight_le hq.snap.totalLe hle]; exact htot
+  · intro id p b hp hcl hb
+    have hle := hq.snap.startLe id p hp
+    show g'.members.atHeight p.proposer p.startHeight = _
+    rw [hs.1.atHeight_le hq.snap.membersLe _ hle]
+    exact hq.propBallot id p b hp (hcs _ _ hcl) hb
+
+theorem total_step (ext : Ext) (fuel : Nat) {w : World} {H : Nat} (op : Op) (hq : TotalInv w H) (hH : H ≤ op.blk.height) :
+    TotalInv (step ext fuel w op) op.blk.height := by
+  have hq' := hq.mono hH
+  unfold step
+  split
+  · rename_i w' htx
+    exact tx_inv ext (fun w => TotalInv w op.blk.height) op.blk
+      (fun w snd funds em s' out hq he => total_flex hq he)
+      (fun w snd m g' outs hq hg => total_group hq hg)
+      (fun w b hq => ⟨⟨hq.snap.inv, hq.snap.membersLe, hq.snap.totalLe, hq.snap.startLe, hq.snap.ballot⟩, hq.inv', hq.grp,
+        hq.fresh, hq.total, hq.propBallot⟩)
+      (fun w t hq => ⟨⟨hq.snap.inv, hq.snap.membersLe, hq.snap.totalLe, hq.snap.startLe, hq.snap.ballot⟩, hq.inv', hq.grp,
+        hq.fresh, hq.total, hq.propBallot⟩) hq' htx
+  · exact hq'
+
+/-- The freshly instantiated world satisfies `TotalInv · H0` when the group satisfies its own invariant and its
+changelogs are bounded by the instantiation height `H0` (which the initial ghost log records as a group write). -/
+theorem total_init {m : InstMsg} {s : State} {g : Cw4Group.State} (t : Cw20.State) (bank : AMap (Addr × String) Nat)
+    (self ga ta : Addr) {H0 : Nat} (hi : instantiate m (some g) = .ok s) (hg : CwPlus.Props.C09.Inv g)
+    (hgm : g.members.LogLe H0) (hgt : g.total.LogLe H0) : TotalInv (World.init s g t bank self ga ta H0) H0 := by
+  have hcore := instantiate_core hi
+  refine ⟨⟨instantiate_inv hi, hgm, hgt, ?_, ?_⟩, instantiate_inv' hi, hg, ?_, ?_, ?_⟩
+  · intro id p hp; simp [World.init, hcore, Core.empty] at hp
+  · intro id p a b hp; simp [World.init, hcore, Core.empty] at hp
+  · intro hn; simp [World.init] at hn
+  · intro id p hp; simp [World.init, hcore, Core.empty] at hp
+  · intro id p b hp; simp [World.init, hcore, Core.empty] at hp
+
+/-- Worlds reached from an accepted instantiation of the multisig on a cw4-group that satisfies the cw4-group
+invariant of C09 (as every instantiated cw4-group does, after any history of its own: `C09.run_inv`) and whose
+changelogs are bounded by `h0`, by a history (transactions on the multisig, the group, the token) whose blocks are at
+or after height `h0` and never go back.  The last argument is the block of the last transaction. -/
+inductive ReachableSnap (ext : Ext) (fuel : Nat) : World → Block → Prop
+  | init {m : InstMsg} {s : State} (g : Cw4Group.State) (t : Cw20.State) (bank : AMap (Addr × String) Nat)
+      (self groupAddr tokenAddr : Addr) (h0 : Nat) (b : Block) :
+      instantiate m (some g) = .ok s → CwPlus.Props.C09.Inv g → g.members.LogLe h0 → g.total.LogLe h0 → h0 ≤ b.height →
+      ReachableSnap ext fuel (World.init s g t bank self groupAddr tokenAddr h0) b
+  | step {w : World} {b : Block} (op : Op) : ReachableSnap ext fuel w b → C04.later b op.blk →
+      ReachableSnap ext fuel (step ext fuel w op) op.blk
+
+theorem ReachableSnap.reachableAt {ext : Ext} {fuel : Nat} {w : World} {b : Block} (h : ReachableSnap ext fuel w b) :
+    ReachableAt ext fuel w b := by
+  induction h with
+  | init g t bank self ga ta h0 b hi _ _ _ _ => exact ReachableAt.init g t bank self ga ta h0 b hi
+  | step op _ hb ih => exact ReachableAt.step op ih hb
+
+theorem ReachableSnap.totalInv {ext : Ext} {fuel : Nat} {w : World} {b : Block} (h : ReachableSnap ext fuel w b) :
+    TotalInv w b.height := by
+  induction h with
+  | init g t bank self ga ta h0 b hi hg hgm hgt hle => exact (total_init t bank self ga ta hi hg hgm hgt).mono hle
+  | step op _ hb ih => exact total_step ext fuel op ih hb.1
+
+/-- Every ballot of a proposal created outside the same-block situation carries the weight the snapshot map of its
+start height has for the voter. -/
+theorem TotalInv.ballot_in_snapshot {w : World} {H : Nat} (hq : TotalInv w H) {id : Nat} {p : Proposal}
+    (hp : w.flex.core.proposals.get? id = some p) (hc : CleanStart w.log id p.startHeight) {a : Addr} {b : Ballot}
+    (hb : (ballotsOf w.flex.core id).get? a = some b) : memberAt w.group a p.startHeight = some b.weight := by
+  by_cases e : a = p.proposer
+  · subst e; exact hq.propBallot id p b hp hc hb
+  · exact (hq.snap.ballot id p a b hp hb e).1
+
+/-- **C06 "ballots never outweigh the total", cw3-flex** (clause e).  On every history with non-decreasing blocks, for
+every proposal whose `Propose` was not preceded by a group write in its own block (`CleanStart`, the exact complement of
+the known same-block finding D3): the recorded ballots together weigh at most the recorded `total_weight`, the
+recorded total is the group's `TotalWeight { at_height: start_height }` in the FINAL group state, and it fits `u64`. -/
+theorem flex_sum_ballots_le_total {ext : Ext} {fuel : Nat} {w : World} {b : Block} (hr : ReachableSnap ext fuel w b)
+    {id : Nat} {p : Proposal} (hp : w.flex.core.proposals.get? id = some p) (hc : CleanStart w.log id p.startHeight) :
+    weightSum (ballotsOf w.flex.core id) ≤ p.totalWeight ∧ p.totalWeight ≤ U64_MAX ∧
+      Cw4Group.queryTotalWeight w.group (some p.startHeight) = p.totalWeight := by
+  have hq := hr.totalInv
+  obtain ⟨M, hnd, hsum, hu, hmem, htot⟩ := hq.total id p hp hc
+  refine ⟨?_, hu, by simp [Cw4Group.queryTotalWeight, htot]⟩
+  rw [← hsum]
+  refine weightSum_le_sum _ M (hq.snap.inv.wf.nodup id) hnd ?_
+  intro a b hb
+  rw [← hmem a]; exact hq.ballot_in_snapshot hp hc hb
+
+/-- … hence the stored tally (yes + no + abstain + veto) never exceeds the recorded total: `C04.Premise.tally_le`. -/
+theorem flex_tally_le_total {ext : Ext} {fuel : Nat} {w : World} {b : Block} (hr : ReachableSnap ext fuel w b)
+    {id : Nat} {p : Proposal} (hp : w.flex.core.proposals.get? id = some p) (hc : CleanStart w.log id p.startHeight) :
+    p.votes.yes + p.votes.no + p.votes.abstain + p.votes.veto ≤ p.totalWeight := by
+  have h := (flex_sum_ballots_le_total hr hp hc).1
+  rw [weightSum_eq] at h
+  rw [hr.totalInv.snap.inv.wf.tally id p hp]
+  exact h
+
+/-- **C06 "the proposer's ballot and the total are snapshot values", cw3-flex, history level** (clause c).  On every
+history with non-decreasing blocks, for every proposal whose `Propose` was not preceded by a group write in its own
+block: in the FINAL world — after all later membership changes — `total_weight` is the group's
+`TotalWeight { at_height: start_height }`, and EVERY ballot (the proposer's first Yes included) carries the group's
+`Member { voter, at_height: start_height }`.  (The voters' part needs no guard: `ballots_are_snapshot`.) -/
+theorem proposer_and_total_are_snapshot {ext : Ext} {fuel : Nat} {w : World} {b : Block} (hr : ReachableSnap ext fuel w b)
+    {id : Nat} {p : Proposal} (hp : w.flex.core.proposals.get? id = some p) (hc : CleanStart w.log id p.startHeight) :
+    p.totalWeight = Cw4Group.queryTotalWeight w.group (some p.startHeight) ∧
+    (∀ a bl, (ballotsOf w.flex.core id).get? a = some bl → memberAt w.group a p.startHeight = some bl.weight) := by
+  exact ⟨(flex_sum_ballots_le_total hr hp hc).2.2.symm, fun a bl hb => hr.totalInv.ballot_in_snapshot hp hc hb⟩
+
+/-- Non-vacuity: the history of `C06_flex_counterexample` moved one block on (group update in block 10, `Propose` in
+block 11, `b` votes in block 12) is a `ReachableSnap` history, the guard holds for proposal 1, and ballots 3 + 4 = 7 ≤
+total 7.  In the counterexample history itself the guard is false. -/
+def Cex.opsOk : List Op :=
+  [⟨⟨10, 0⟩, .group "adm" (.updateMembers [] [(⟨true, "a"⟩, 3)])⟩,
+   ⟨⟨11, 0⟩, .flex "a" [] (.propose "t" "d" [] none)⟩,
+   ⟨⟨12, 0⟩, .flex "b" [] (.vote 1 .no)⟩]
+
+theorem Cex.group0_inv : CwPlus.Props.C09.Inv Cex.group0 :=
+  CwPlus.Props.C09.instantiate_inv (msg := ⟨some ⟨true, "adm"⟩, [(⟨true, "a"⟩, 1), (⟨true, "b"⟩, 4)]⟩) (h0 := 5) rfl
+
+theorem Cex.group0_logLe : Cex.group0.members.LogLe 5 ∧ Cex.group0.total.LogLe 5 := by
+  have h := CwPlus.Props.C09.instantiate_sameBlock
+    (msg := ⟨some ⟨true, "adm"⟩, [(⟨true, "a"⟩, 1), (⟨true, "b"⟩, 4)]⟩) (h0 := 5) (s0 := Cex.group0) rfl
+  exact ⟨h.1.logLe (SnapMap.logLe_empty 5) (Nat.le_refl _), h.2.logLe (Cell.logLe_empty 5) (Nat.le_refl _)⟩
+
+theorem Cex.okReachable : ReachableSnap Cex.noExt 10 (run Cex.noExt 10 Cex.world0 Cex.opsOk) ⟨12, 0⟩ := by
+  have h0 : ReachableSnap Cex.noExt 10 Cex.world0 ⟨10, 0⟩ :=
+    ReachableSnap.init (m := Cex.inst) Cex.group0 Cex.token0 [] "ms" "grp" "tok" 5 ⟨10, 0⟩ rfl Cex.group0_inv
+      Cex.group0_logLe.1 Cex.group0_logLe.2 (by decide)
+  have h1 := ReachableSnap.step ⟨⟨10, 0⟩, .group "adm" (.updateMembers [] [(⟨true, "a"⟩, 3)])⟩ h0 ⟨Nat.le_refl _, Nat.le_refl _⟩
+  have h2 := ReachableSnap.step ⟨⟨11, 0⟩, .flex "a" [] (.propose "t" "d" [] none)⟩ h1 ⟨by decide, by decide⟩
+  exact ReachableSnap.step ⟨⟨12, 0⟩, .flex "b" [] (.vote 1 .no)⟩ h2 ⟨by decide, by decide⟩
+
+example :
+    let w := run Cex.noExt 10 Cex.world0 Cex.opsOk
+    CleanStart w.log 1 11 ∧
+    ((w.flex.core.proposals.get? 1).map fun p => (p.startHeight, p.totalWeight)) = some (11, 7) ∧
+    weightSum (ballotsOf w.flex.core 1) = 7 ∧ ¬ CleanStart Cex.final.log 1 10 := by
   decide
 
 end CwPlus.Props.C06Flex
